@@ -8,6 +8,7 @@ import Model.C08.Parse
 import Model.C08.Core
 import Model.C08.Verify
 import Model.C08.Btclib
+import Proofs.C08.Sim
 import Generated.Script
 open Btc Btc.Script
 
@@ -175,6 +176,11 @@ def handleC08 : List String → String
         renderUnit (Core.verifyScript env ss pk wit) (op == "verifyx")
       | _, _, _, _, _, _, _ => "bad-op"
     else "bad-op"
+  -- is the script within the set `btclib_eval_refines_core_partial` speaks about?
+  | ["btcovered", script] =>
+    match fromHex? script with
+    | some sc => if Sim.covered sc then "ok True" else "ok False"
+    | none => "bad-op"
   -- the btclib-shaped model of `verify_script` (final=False): bteval <base|v0> <flags> <script> <stack> <locktime> <sequence> <version>
   | ["bteval", sv, flags, script, stack, lockTime, sequence, version] =>
     match parseFlags flags, fromHex? script, parseHexList stack, lockTime.toNat?, sequence.toNat?, version.toNat? with
